@@ -25,31 +25,39 @@ P = "C01"
 
 def check(repo: Repo, R) -> None:
     noret = noreturn_set(repo)
-    source_covers_connectables(repo, R, "C01.1-portref-source-kinds")
-    bit_order(repo, R)
-    array_partition(repo, R, "C01.3-array-partition")
-    bundle_conn_path(repo, R, "C01.4-bundle-reconnect-by-path")
-    inst_bundle_names(repo, R, "C01.5-instbundle-member-wiring")
-    noconn_private(repo, R, noret)
-    shared.eq_hash_wellformed(repo, R, "C01.7-ref-eq-hash", F_PORTREF, "PortRef", "inst", "portname",
+    R.run(source_covers_connectables, repo, R, "C01.1-portref-source-kinds")
+    R.run(bit_order, repo, R)
+    R.run(array_partition, repo, R, "C01.3-array-partition")
+    R.run(bundle_conn_path, repo, R, "C01.4-bundle-reconnect-by-path")
+    R.run(inst_bundle_names, repo, R, "C01.5-instbundle-member-wiring")
+    R.run(noconn_private, repo, R, noret)
+    R.run(shared.eq_hash_wellformed, repo, R, "C01.7-ref-eq-hash", F_PORTREF, "PortRef", "inst", "portname",
                               why="two references to the same (instance, port) stop comparing equal, so groups of connected ports split or merge")
-    shared.eq_hash_wellformed(repo, R, "C01.7-ref-eq-hash", F_BUNDLE, "BundleRef", "parent", "attrname",
+    R.run(shared.eq_hash_wellformed, repo, R, "C01.7-ref-eq-hash", F_BUNDLE, "BundleRef", "parent", "attrname",
                               why="comparing/hashing a BundleRef manufactures a bogus reference through __getattr__ magic; a design using b.x through a port-reference chain dies in BundleFlattener")
-    slice_resolution(repo, R)
-    shared.owner_only_writes(repo, R, "C01.9-conns-owner-api",
+    R.run(slice_resolution, repo, R)
+    R.run(shared.owner_only_writes, repo, R, "C01.9-conns-owner-api",
                              why="a pass that rewrites conns without updating the back-reference set leaves stale or missing _connected_ports entries that later passes follow")
     from . import c04
     from . import c02 as _c02
-    _c02.live_passes(repo, shared.Retag(R, lambda r, k: "C01.16-pass-order" if "<" in k.split("::")[-1] else None,
+    R.run(_c02.live_passes, repo, shared.Retag(R, lambda r, k: "C01.16-pass-order" if "<" in k.split("::")[-1] else None,
                                         "a connection is rewritten by a pass that runs before the pass producing what it consumes: nets are merged (a NoConn on a Pair port shorts p and n) or split"))
-    c04.pairing(repo, shared.Retag(R, lambda r: "C01.9-conns-owner-api",
+    R.run(c04.pairing, repo, shared.Retag(R, lambda r: "C01.9-conns-owner-api",
                                    "a replaced port reference / bundle keeps its back-reference: ResolvePortRefs or BundleFlattener later follow it and short the re-connected port onto the old net"))
-    total_loops(repo, R, noret)
-    copy_port_internal(repo, R)
-    copy_aliasing(repo, R, "C01.12-copy-shares-backrefs")
-    noconn_array(repo, R)
-    ref_resolution(repo, R)
-    secondary(repo, R, noret)
+    # "the same leaf devices with the same parameters": nothing an elaboration pass inserts may take the name of (and so
+    # evict) something the designer placed, and every parameter that is set reaches the exported instance
+    from . import c05 as _c05
+    from . import c13 as _c13
+    R.run(_c05.check, repo, shared.Retag(R, lambda r: "C01.17-devices-and-parameters-kept" if r.startswith("C05.1") else None,
+                                        "the invented name evicts a hand-placed instance or signal of the same name from the module: a device (or a net) of the written circuit is missing from the package"))
+    R.run(_c13.none_skipped, repo, shared.Retag(R, lambda r, k: "C01.17-devices-and-parameters-kept" if k.endswith("only-none") else None,
+                                                "a parameter explicitly set to a falsy value (0, 0.0, False, '') is dropped: the device is netlisted with the model's default"))
+    R.run(total_loops, repo, R, noret)
+    R.run(copy_port_internal, repo, R)
+    R.run(copy_aliasing, repo, R, "C01.12-copy-shares-backrefs")
+    R.run(noconn_array, repo, R)
+    R.run(ref_resolution, repo, R)
+    R.run(secondary, repo, R, noret)
     R.floor("C01.1-portref-source-kinds", 1)
     R.floor("C01.2-bit-order", 5)
     R.floor("C01.3-array-partition", 3)
